@@ -74,6 +74,23 @@ class Rng:
                         gi = self.seed_info(g, _depth + 1)
                         if gi is not None and gi[0] in ("param", "kwargs"):
                             info = ("kwargs", f.kwarg, gi[1] if gi[0] == "param" else gi[2])
+        if info is None and f.cls is None:
+            # a helper that takes the generator under another name: the parameter it draws on, or hands on as
+            # `random_state=` / to check_random_state, is its seed
+            for p_ in f.all_params:
+                used = False
+                for c in own_scope_nodes(f.node):
+                    if not isinstance(c, ast.Call):
+                        continue
+                    if isinstance(c.func, ast.Attribute) and c.func.attr in DRAW_METHODS and is_name(c.func.value, p_):
+                        used = True
+                    if any(k.arg in SEED_NAMES and is_name(k.value, p_) for k in c.keywords):
+                        used = True
+                    if (getattr(c.func, "attr", None) == "check_random_state" or getattr(c.func, "id", None) == "check_random_state") and c.args and is_name(c.args[0], p_):
+                        used = True
+                if used and p_ not in (f.local_names() - set(f.all_params)):
+                    info = ("param", p_)
+                    break
         if info is None and f.parent is not None:
             # a helper nested in a seeded function whose captured generator was made an explicit parameter
             # (lambda lifting): that parameter is its seed
